@@ -458,6 +458,7 @@ struct ProgRun {
     bool desync = false;
     uint64_t boundaries = 0;
     uint64_t reuseBefore = 0;  // model reuse events before the op that has just been applied
+    int deferredAtOp = -1;     // a destructor error is due at the start of this op
     bool echoOff = false;
     sim::Hash evlog;
     std::string property;
@@ -612,6 +613,13 @@ void progObserver(runtime::RuntimeEvaluator* ev, void* stmt, uint64_t, bool) {
         pr->reuseBefore = pr->interp.reuseEvents;
         pr->interp.apply(pr->plan->ops[(size_t)k - 1], k - 1, ob, false, pr->findings);
         pr->modelPos = k;
+        if (pr->interp.deferredError) {
+            // the destructor's error is re-raised right after this hook returns: the run must end here
+            pr->deferredAtOp = k;
+            boundaryChecks(*pr, ob, k - 1);
+            pr->currentOp = k;
+            return;
+        }
         if (pr->interp.expectError) {
             const qh::Op& o = pr->plan->ops[(size_t)k - 1];
             pr->findings.push_back({"measured_qubit_operated_on", "C06", "op " + std::to_string(k - 1) + " (" + qh::kindName(o.kind) + " via " + qh::handleExpr(o.h) + ", path " + std::to_string(o.path) + ") touched a measured qubit (or used one qubit twice in cx) and the program went on"});
@@ -702,7 +710,11 @@ ProgOutcome runProgram(const qh::Plan& plan, const std::string& property, uint64
         }
         auto push = [&](const std::string& cls, const std::string& owner, const std::string& d) { pr.findings.push_back({cls, owner, d}); };
         if (!pr.desync) {
-            if (R.status == 0) {
+            if (pr.deferredAtOp >= 0) {
+                // a user destructor touched a measured qubit: the run must have stopped at the next boundary
+                if (R.status != 1) push("measured_qubit_operated_on", "C06", "a destructor applied a gate to its measured qubit field while op " + std::to_string(pr.deferredAtOp - 1) + " destroyed the object, and the program went on (status " + std::to_string(R.status) + ")");
+                else if (R.errLine <= 0 || R.errCol <= 0) push("guard_error_without_location", "C06", "error from a destructor: " + R.message);
+            } else if (R.status == 0) {
                 if (pr.modelPos != (int)plan.ops.size()) push("program_did_not_reach_end_marker", "C06", "model at op " + std::to_string(pr.modelPos) + " of " + std::to_string(plan.ops.size()));
             } else if (R.status == 1) {
                 int k = pr.currentOp;
